@@ -275,6 +275,10 @@ def directed(recvs, by_name, k):
               {"ident": "Boxed", "style": "newtype", "fields": [F("0", O(L("String")))]}], rule="kebab-case")
     add_enum([{"ident": "Alpha", "style": "unit", "rename": "beta"}, {"ident": "Beta", "style": "unit", "skip": True},
               {"ident": "Gamma", "style": "struct", "fields": [F("mode", Rv(mode)), F("n", L("i64"), default=["explicit", "d_seven"])]}], auk=True)
+    # a variant that explicitly opts out of being the word variant; no from_word anywhere: the bare word must be rejected
+    add_enum([{"ident": "Quiet", "style": "unit", "word_false": True}, {"ident": "Loud", "style": "unit"},
+              {"ident": "Level", "style": "newtype", "fields": [F("0", L("u8"))]}])
+    add_enum([{"ident": "Only", "style": "unit", "word_false": True}], rule="lowercase")
     # with / map / and_then next to multiple, rename and defaults
     add_struct([F("len_of", L("i64"), **{"with": "w_len"}), F("loud", L("String"), post=[False, "m_bang"], rename="LOUD"),
                 F("checked", L("String"), post=[True, "a_nonempty"], default=["explicit", "d_hello"]),
@@ -526,6 +530,8 @@ def render_rust(recvs, seed):
                     it.append("skip")
                 if v["word"]:
                     it.append("word")
+                if v.get("word_false"):
+                    it.append("word = false")        # opting out explicitly must not declare a word variant
                 dflt = ""
                 if v["style"] == "unit" and first_unit:
                     dflt = "#[default] "
